@@ -19,10 +19,12 @@ from .. import runner
 from ..worker import Worker, arg, unjson
 
 LEVEL = "exploration"
-RULE = ("cases = sequences of 1-4 generated source texts (random bytes / token soup / token-level mutants of valid LPC / extreme shapes / "
+RULE = ("cases = (a) sequences of 1-4 generated source texts (random bytes / token soup / token-level mutants of valid LPC / extreme shapes / "
         "preprocessor-state leavers, with a pool of include files) compiled in one driver, then a fixed probe program and a generated valid program "
-        "(C03 grammar) compiled and called; the same two compiled and called in a fresh driver give the reference. non-trivial = at least one X reached "
-        "the parser (it contains >= 8 tokens of the dictionary) and either failed to compile or used a directive; distinct = hash of the X texts")
+        "(C03 grammar) compiled and called; the same two compiled and called in a fresh driver give the reference; (b) a coverage-guided campaign of the libFuzzer target fuzz_compile (bytes -> file [+ include file] -> load; then the probe "
+        "must compile to the same summary), seeded with the valid corpus and an LPC dictionary, 8000 (quick, 4 shards) / 1.2 M (thorough, 16 shards) "
+        "executions per shard. non-trivial = (a) at least one X reached "
+        "the parser (it contains >= 8 tokens of the dictionary) and either failed to compile or used a directive, distinct = hash of the X texts; (b) inputs libFuzzer kept because they reached new coverage features")
 ASSUMPTIONS = ["'the same program' is decided by an address-free summary (code size, sorted function table with types / flags / argument and local counts, "
                "variables with types, sorted string table, inherits, class count) plus the values returned by calling the program, not by an "
                "operand-resolving disassembly (function and string-switch tables are ordered by string address and legitimately differ)",
@@ -480,9 +482,99 @@ def check(ctx, case):
     ctx.case_done(runner.khash(case["xs"]) if nontriv else None, sorted(feats), sample=dict(xs=[x[:200] for x in case["xs"]]))
 
 
+# ------------------------------------------------------------------ coverage-guided layer (libFuzzer target harness/fuzz_compile.cpp)
+def fuzz_setup(root):
+    import shutil
+    from ..worker import BASE_MUDLIB, DEFAULT_CONF
+    m = os.path.join(root, "mudlib")
+    if os.path.isdir(root):
+        shutil.rmtree(root)
+    shutil.copytree(BASE_MUDLIB, m)
+    for path, text in dict(INCLUDES, **{"t/c02probe.c": PROBE, "t/c02parent.c": PARENT}).items():
+        fp = os.path.join(m, path)
+        os.makedirs(os.path.dirname(fp), exist_ok=True)
+        open(fp, "w").write(text)
+    conf = dict(DEFAULT_CONF, MudlibDir=m)
+    open(os.path.join(root, "fz.conf"), "w").write("".join("%s\t%s\n" % kv for kv in conf.items()))
+    os.makedirs(os.path.join(root, "corpus")); os.makedirs(os.path.join(root, "art"))
+    for i, src in enumerate(valid_sources()):
+        open(os.path.join(root, "corpus", "valid%d" % i), "wb").write(b"\x00" + src.encode("latin-1", "replace"))
+    open(os.path.join(root, "corpus", "inc0"), "wb").write(b"\x02#define FZ 1\nint from_inc() { return FZ; }\n\xff#include \"fz_inc.h\"\nint f() { return from_inc(); }\n")
+    with open(os.path.join(root, "lpc.dict"), "w") as d:
+        for t in KEYWORDS + OPERATORS + LITERALS + [x.strip("\n").split("\n")[0] for x in DIRECTIVES]:
+            if t and '"' not in t and "\\" not in t:
+                d.write('"%s"\n' % t)
+    return root
+
+
+def fuzz_run_file(root, path):
+    """runs one input through the target; returns (crashed, tail of stderr)"""
+    import subprocess
+    from .. import build
+    from ..worker import _lift_limits
+    exe = build.binary("fuzz", "fuzz_compile")
+    env = dict(os.environ, VERIF_FUZZ_CONF=os.path.join(root, "fz.conf"), ASAN_OPTIONS="detect_leaks=0:abort_on_error=0:symbolize=1")
+    r = subprocess.run([exe, path], capture_output=True, env=env, preexec_fn=_lift_limits, timeout=120)
+    err = r.stderr.decode("latin-1")
+    return r.returncode != 0, err
+
+
+def fuzz_signature(err):
+    if "C02-ORACLE" in err:
+        return "fuzz:" + err.split("C02-ORACLE:")[1].split("\n")[0].strip().replace(" ", "-")[:70]
+    if "SUMMARY: AddressSanitizer" in err:
+        return "fuzz:asan:" + err.split("SUMMARY: AddressSanitizer:")[1].split("\n")[0].strip()[:90]
+    return "fuzz:crash"
+
+
+def fuzz_campaign(ctx):
+    import re, subprocess, hashlib
+    from .. import build
+    from ..worker import _lift_limits
+    exe = build.binary("fuzz", "fuzz_compile")
+    root = fuzz_setup(ctx.scratch("fuzz"))
+    runs = {"quick": 8000, "thorough": 1200000}[ctx.tier]
+    before = set(os.listdir(os.path.join(root, "corpus")))
+    env = dict(os.environ, VERIF_FUZZ_CONF=os.path.join(root, "fz.conf"), ASAN_OPTIONS="detect_leaks=0:abort_on_error=0:symbolize=1")
+    cmd = [exe, "-max_len=8192", "-runs=%d" % runs, "-seed=%d" % ((ctx.hseed % (2 ** 31 - 2)) + 1), "-dict=" + os.path.join(root, "lpc.dict"),
+           "-artifact_prefix=" + os.path.join(root, "art") + "/", "-timeout=60", "-rss_limit_mb=3500", "-print_final_stats=1", os.path.join(root, "corpus")]
+    try:
+        r = subprocess.run(cmd, capture_output=True, env=env, preexec_fn=_lift_limits, timeout={"quick": 600, "thorough": 7200}[ctx.tier])
+        err = r.stderr.decode("latin-1")
+    except subprocess.TimeoutExpired:
+        ctx.inconclusive["fuzz-campaign-timeout"] += 1
+        return
+    m = re.search(r"stat::number_of_executed_units:\s*(\d+)", err)
+    execs = int(m.group(1)) if m else 0
+    cov = re.findall(r"cov: (\d+) ft: (\d+)", err)
+    new = sorted(set(os.listdir(os.path.join(root, "corpus"))) - before)
+    ctx.evaluations += execs
+    for f in new:
+        ctx.nontrivial.add("fuzz:" + f)           # inputs that reached new coverage features
+    ctx.classes["fuzz:executed"] += execs
+    ctx.classes["fuzz:new-coverage-inputs"] += len(new)
+    ctx.extra.setdefault("fuzz", []).append(dict(shard=ctx.shard, executed=execs, cov=int(cov[-1][0]) if cov else 0, features=int(cov[-1][1]) if cov else 0, new_inputs=len(new)))
+    arts = sorted(os.listdir(os.path.join(root, "art")))
+    for a in arts:
+        if not (a.startswith("crash-") or a.startswith("leak-")):
+            ctx.inconclusive["fuzz:" + a.split("-")[0]] += 1     # timeout / oom / slow-unit are load noise
+            continue
+        path = os.path.join(root, "art", a)
+        crashed, e2 = fuzz_run_file(root, path)
+        if not crashed:
+            ctx.inconclusive["fuzz:artifact-does-not-reproduce"] += 1
+            continue
+        data = open(path, "rb").read()
+        sig = fuzz_signature(e2)
+        if ctx.is_known(sig):
+            ctx.known_seen[ctx.is_known(sig)["id"]] += 1
+            continue
+        ctx.failures.append(dict(sig=sig, case=dict(kind="fuzz", data=data.decode("latin-1")), detail="libFuzzer artifact %s (%d bytes)\n%s\n%s" % (a, len(data), data[:600].decode("latin-1"), e2[-3000:])))
+
+
 def shard_main(ctx):
     from hypothesis import given
-    n = {"quick": 500, "thorough": 15000}[ctx.tier]
+    n = {"quick": 350, "thorough": 15000}[ctx.tier]
 
     @given(cases())
     def test(case):
@@ -492,9 +584,18 @@ def shard_main(ctx):
         runner.run_hypothesis(ctx, test, n)
     finally:
         close_workers(ctx)
+    # shards 0-3 (quick) / all shards (thorough) also run a coverage-guided campaign with their own seed
+    if not ctx.failures and (ctx.tier == "thorough" or ctx.shard < 4):
+        fuzz_campaign(ctx)
 
 
 def replay(ctx, case):
+    if case.get("kind") == "fuzz":
+        root = fuzz_setup(ctx.scratch("fuzz-replay"))
+        path = os.path.join(root, "input")
+        open(path, "wb").write(case["data"].encode("latin-1"))
+        crashed, err = fuzz_run_file(root, path)
+        return (fuzz_signature(err), err[-3000:]) if crashed else None
     try:
         f, _ = evaluate_case(ctx, get_worker(ctx), case)
         return f
